@@ -64,13 +64,18 @@ func expectClass(s *schemeOps, h, pw string) (cls int, skip bool) {
 type checkCaseSink struct {
 	cs  *caseSet
 	rep *report
+	cs2 *caseSet // optional: the same cases under a second test function (C06: the recogniser statement)
 }
 
 func (k *checkCaseSink) add(s *schemeOps, h, pw string, toCoq bool, kind string) (error, interface{}) {
 	err, pan := checkWatch(s, h, pw)
 	if toCoq {
-		k.cs.add(fmt.Sprintf("(%d, %s, %s, %s, %s, %s)", s.tag, coqStr(h), coqStr(pw), kdfTable(s, h, pw), coqBytes(ntEncode(pw)), verdictDesc(err, pan)),
-			map[string]interface{}{"scheme": s.name, "hash": h, "password": pw, "kind": kind})
+		term := fmt.Sprintf("(%d, %s, %s, %s, %s, %s)", s.tag, coqStr(h), coqStr(pw), kdfTable(s, h, pw), coqBytes(ntEncode(pw)), verdictDesc(err, pan))
+		meta := map[string]interface{}{"scheme": s.name, "hash": h, "password": pw, "kind": kind}
+		k.cs.add(term, meta)
+		if k.cs2 != nil {
+			k.cs2.add(term, meta)
+		}
 	}
 	k.rep.count(s.name+"|"+h+"|"+pw, true)
 	k.rep.bump(s.name + "_" + classNames[classOf(err, pan)])
@@ -103,7 +108,11 @@ func corrC06(outDir string, seed uint64, tier string, replay string) *report {
 	r := newRng(seed)
 	cs := newCaseSet(outDir, "C06_check", []string{"GC.Schemes.Keys", "GC.Schemes.Checks", "GC.Schemes.SchemeCases", "GC.Codec.Types"},
 		"Z * bytes * bytes * list kdf_entry * bytes * verdict", "ok_check", 1500)
-	sink := &checkCaseSink{cs, rep}
+	// the C06 statement itself (class of the model's verdict = independent Coq recogniser + Key guards + digest
+	// equality, and = class of the observed verdict), evaluated on the same cases
+	cs2 := newCaseSet(outDir, "C06_recog", []string{"GC.Schemes.Keys", "GC.Schemes.Checks", "GC.Schemes.SchemeCases", "GC.Codec.Types", "GC.Schemes.RecogCases"},
+		"Z * bytes * bytes * list kdf_entry * bytes * verdict", "test_recog", 1500)
+	sink := &checkCaseSink{cs, rep, cs2}
 	nCanon := 1
 	coqEvery := 3
 	alpha := "$,=_0a/@"
@@ -137,7 +146,43 @@ func corrC06(outDir string, seed uint64, tier string, replay string) *report {
 				}
 			}
 			n := 0
+			judgeParams := func(h string) {
+				if s.params == nil {
+					return
+				}
+				rc := recognise(s.name, h)
+				if rc.skip {
+					return
+				}
+				p, perr := s.params(h)
+				rep.bump("params_calls")
+				if rc.ok {
+					// well-formed and in range: Params/Salt succeed and return exactly the values written in the string
+					same := perr == nil && string(p.salt) == string(rc.p.salt) && fmt.Sprint(p.nums) == fmt.Sprint(rc.p.nums) && p.prefix == rc.p.prefix && p.flag == rc.p.flag
+					if !same {
+						rep.fail(map[string]interface{}{"scheme": s.name, "hash": h}, fmt.Sprintf("salt=%q nums=%v prefix=%q flag=%v", rc.p.salt, rc.p.nums, rc.p.prefix, rc.p.flag),
+							fmt.Sprintf("salt=%q nums=%v prefix=%q flag=%v err=%v", p.salt, p.nums, p.prefix, p.flag, perr), "Params/Salt do not return the values encoded in a well-formed hash")
+					}
+					rep.bump("params_wellformed")
+					return
+				}
+				// not recognised (malformed or out of range): if Params nevertheless succeeds the string is well-formed
+				// for the codec, so Check may only fail on a typed Key error or the mismatch sentinel; if Params fails,
+				// Check must fail with the same kind of error and never report a mere mismatch
+				cerr, cpan := checkWatch(s, h, pw)
+				if perr != nil && classOf(cerr, cpan) != 2 {
+					rep.fail(map[string]interface{}{"scheme": s.name, "hash": h}, "Check rejects as malformed what Params/Salt reject", classNames[classOf(cerr, cpan)],
+						"Params/Salt fail on a string that Check accepts or reports as a mere mismatch")
+				}
+				if perr == nil && cerr != nil && classOf(cerr, cpan) == 2 {
+					if _, typed := keyErrDesc(cerr); !typed {
+						rep.fail(map[string]interface{}{"scheme": s.name, "hash": h}, "a typed range error from Key (the string is well-formed for Params)", fmt.Sprint(cerr),
+							"Params/Salt succeed on a string that Check rejects as malformed")
+					}
+				}
+			}
 			judge := func(h, kind string) {
+				judgeParams(h)
 				for _, p := range []string{pw, pw + "x"} {
 					n++
 					err, pan := sink.add(s, h, p, n%coqEvery == 0 || kind == "canonical", kind)
@@ -166,9 +211,10 @@ func corrC06(outDir string, seed uint64, tier string, replay string) *report {
 		}
 	})
 	must(cs.flush())
-	rep.CaseSets = []string{"C06_check"}
+	must(cs2.flush())
+	rep.CaseSets = []string{"C06_check", "C06_recog"}
 	rep.Exhaustive = true
 	rep.ExhaustiveSpaces = append(rep.ExhaustiveSpaces, fmt.Sprintf("per scheme: every string at edit distance 1 (alphabet %q) from %d canonical hash(es), all truncations, all strings of length <= 3 over {$ , _ = a 1}; x {right, wrong} password", alpha, nCanon))
-	rep.Rule = "Check(hash, password) three-way class (nil / mismatch / other) vs the independent layout recogniser + re-derived digest (property oracle); full verdict (codec error projection or typed key error with its value) vs the Coq scheme model with the derivation supplied as a table obtained through Params+Key. Every case is non-trivial; distinct by (scheme, hash, password)."
+	rep.Rule = "Check(hash, password) three-way class (nil / mismatch / other) vs the independent layout recogniser + re-derived digest (property oracle); full verdict (codec error projection or typed key error with its value) vs the Coq scheme model with the derivation supplied as a table obtained through Params+Key. Params/Salt: on recognised strings they return the recognised values; on the others success/failure is consistent with Check (never a mere mismatch for a string they reject). Every case is non-trivial; distinct by (scheme, hash, password)."
 	return rep
 }
